@@ -113,3 +113,19 @@ fn c09_write_long() {
     }
     kani::cover!(true, "REACH:end");
 }
+
+/// The seam's address map IS the real bus's: for every u32 address the REAL Bus::read succeeds exactly where
+/// spec/isa.rs::mapped says so (no stub in this harness).  This is
+/// the link between the bus seam used by every instruction harness and the real decoder (the Verus unit
+/// proves the same of the extracted text; this harness runs the compiled function).
+#[kani::proof]
+fn c09_seam_map_is_the_real_map() {
+    *crate::setting::ENABLE_PRINT_OPCODE.write().unwrap() = false;
+    let cpu = Cpu::new();
+    let a: u32 = kani::any();
+    let r = cpu.bus.read(a);
+    assert!(r.is_ok() == isa::mapped(a), "OBL:C09/real_Bus::read/accessible_iff_in_the_five_ranges");
+    kani::cover!(a > 0x00ff_ffff, "COVER:above_16MiB");
+    kani::cover!(isa::mapped(a), "COVER:mapped");
+    kani::cover!(true, "REACH:end");
+}
